@@ -2,7 +2,7 @@
 # usage: confirm_seed.sh <ID>  — confirm a sub-agent's seeded change in its own scratch worktree:
 #  suite passes with the change; demo fails with it; demo passes without it.
 id=$1
-w=/tmp/seed/$id
+w=${SEEDROOT:-/tmp/seed}/$id
 export CARGO_NET_OFFLINE=true CARGO_TARGET_DIR=$w/target
 cd $w || exit 2
 git checkout -q -- entrait_macros src 2>/dev/null
